@@ -183,11 +183,40 @@ def _structural(t: Any) -> bool:
     return False
 
 
+def _atoms_table(t: Any):
+    """(atoms, table) of a canonical SET / COND node, else None."""
+    if isinstance(t, tuple) and len(t) == 3 and t[0] == "SET" and isinstance(t[1], tuple) and isinstance(t[2], tuple):
+        return t[1], t[2]
+    if isinstance(t, tuple) and len(t) == 2 and t[0] == "COND" and isinstance(t[1], tuple) and len(t[1]) == 2:
+        return t[1][0], t[1][1]
+    return None
+
+
 def all_differences(a: Any, b: Any, out: list | None = None, depth: int = 0) -> list:
-    """All minimal pairs of differing sub-terms: descend wherever head and arity agree."""
+    """All minimal pairs of differing sub-terms: descend wherever head and arity agree.  Truth-table nodes (SET / COND) are compared atom list
+    against atom list: atoms only one side has are paired by head and descended into (that is where a different operand shows), the tables
+    themselves are never reported when the atoms differ (their difference is a consequence)."""
     if out is None:
         out = []
     if a == b or len(out) > 40:
+        return out
+    ta, tb = _atoms_table(a), _atoms_table(b)
+    if ta is not None and tb is not None and depth < 80:
+        if ta[0] == tb[0]:
+            out.append((a, b))  # same atoms, different table: a different boolean combination of the same operands
+            return out
+        xs = [x for x in ta[0] if x not in tb[0]]
+        ys = [y for y in tb[0] if y not in ta[0]]
+        n0 = len(out)
+        used = set()
+        for x in xs:
+            for j, y in enumerate(ys):
+                if j not in used and isinstance(x, tuple) and isinstance(y, tuple) and x and y and x[0] == y[0] and len(x) == len(y):
+                    used.add(j)
+                    all_differences(x, y, out, depth + 1)
+                    break
+        if len(out) == n0:
+            out.append((a, b))
         return out
     if isinstance(a, tuple) and isinstance(b, tuple) and len(a) == len(b) and depth < 80 and (
             (is_term(a) and is_term(b) and a[0] == b[0]) or (not is_term(a) and not is_term(b))):
@@ -197,6 +226,37 @@ def all_differences(a: Any, b: Any, out: list | None = None, depth: int = 0) -> 
         return out
     out.append((a, b))
     return out
+
+
+def guarded_equal(x: Any, y: Any, guard, sa: SetAlg, depth: int = 0) -> bool:
+    """Are the two (raw) values equal on every input that satisfies the joint guard?  Set-valued operands are compared by membership
+    under the guard (a part that is empty on these inputs does not count); everything else must have the same canonical form."""
+    if x == y:
+        return True
+    if not isinstance(x, tuple) or not isinstance(y, tuple) or depth > 40:
+        return False
+    if is_term(x) and is_term(y):
+        if sa.canon_top(x) == sa.canon_top(y):
+            return True
+        xs, ys = sa.strip(x), sa.strip(y)
+
+        def setlike(t):
+            return sa.is_setexpr(t) or t[0] == "bigunion" or (t[0] == "accum" and t[1] == "union")
+
+        if setlike(xs) and setlike(ys):
+            e = ("var", "§elem")
+            mx, my = sa.member(e, xs), sa.member(e, ys)
+            try:
+                return (satisfy(f_and(guard, norm_formula(mx), f_not(norm_formula(my)))) is None
+                        and satisfy(f_and(guard, norm_formula(my), f_not(norm_formula(mx)))) is None)
+            except TooManyAtoms:
+                return False
+        if x[0] != y[0] or len(x) != len(y):
+            return False
+        return all(guarded_equal(u, v, guard, sa, depth + 1) for u, v in zip(x[1:], y[1:]))
+    if is_term(x) or is_term(y) or len(x) != len(y):
+        return False
+    return all(guarded_equal(u, v, guard, sa, depth + 1) for u, v in zip(x, y))
 
 
 class Outcome:
@@ -212,6 +272,7 @@ class Outcome:
             v = subst(path.value, ren)
             if post is not None:
                 v = post(v)
+            self.raw = v
             self.value = sa.canon_top(v)
         self.unknown = has_unknown(path.value) or any(has_unknown(c) for c in path.conds)
 
@@ -272,6 +333,7 @@ def compare_with_reference(model: Model, impl_q: str, ref_q: str, types: dict[st
               "implementation": [show(o.value)[:260] if not isinstance(o.value, str) else "raise " + o.value for o in oi[:3]]}
     if any(o.unknown for o in orf):
         return f, "UNKNOWN", "the reference definition itself is outside the evaluator's idioms", sample
+    agreed: set = set()  # reference paths matched by an implementation path whose value is equal UNDER the joint guard
     pending = None  # first recognition failure (UNKNOWN); an operand-level difference on ANY jointly satisfiable pair of paths outranks it
     for a in oi:
         for b in orf:
@@ -284,6 +346,9 @@ def compare_with_reference(model: Model, impl_q: str, ref_q: str, types: dict[st
                     pending = (f, "UNKNOWN", "guard comparison exceeds the case-split budget", sample)
                 continue
             if w is None:
+                continue
+            if a.kind == b.kind == "return" and not a.unknown and guarded_equal(a.raw, b.raw, joint_guard(a, b, sa), sa):
+                agreed.add(id(b))
                 continue
             if a.unknown:
                 if pending is None:
@@ -311,7 +376,7 @@ def compare_with_reference(model: Model, impl_q: str, ref_q: str, types: dict[st
         return pending
     # coverage: every reference *return* path must be reachable through some implementation path with the same outcome
     for b in orf:
-        if not any(a.kind == b.kind and a.value == b.value for a in oi):
+        if id(b) not in agreed and not any(a.kind == b.kind and a.value == b.value for a in oi):
             # no implementation path has this outcome and none overlaps (otherwise refuted above): guard space lost
             return f, "REFUTED", f"no path of the implementation produces the definition's case `{_sh(b.value)}`", sample
     return f, "PROVEN", "", sample
